@@ -54,6 +54,7 @@ pub const DICT: &[&str] = &[
     "/[/", "'x' 'x'", "S", "A", "B", "Ta", "Tb", "Num", "X1", "S0", "A1", "AOpt", "A0", "// c\n", "/* c */",
     "/*", "*/", "\n", "kind", "priority: 5", "k: 'v'", "é", "\u{0}", "\u{feff}", "T: ;", "T: 'a' {15};",
     "T: 'a' {200};", "T: {left};", "import 'x.rustemo' as m;",
+    "Type", "Fn", "Match", "Loop", "Struct", "Mod", "Type: Num;", "Fn: /f/;",
 ];
 
 /// meta-data blocks inserted right after a name (rule, production symbol or terminal level)
@@ -68,6 +69,17 @@ pub const TERM_DICT: &[&str] = &[
     "Unused1: ;", "Unused2: ;\nUnused3: 'u';", "Unused4: 'u4' {15};", "Unused5: /u5/ {left};", "Unused6: {5};",
     "Unused7: 'a';", "Unused8: '';", "Unused9: //;", "UnusedA: 'ua' {prefer, dynamic};", "UnusedB: /\\d+/ {200};",
     "Layout: ;", "STOP: 's';", "EMPTY: ;", "UnusedC: ;\nUnusedC: ;", "UnusedD: 'x' {kind: K};",
+];
+
+/// Layout rules (inserted in front of the `terminals` section) with the terminals they need
+/// (appended at the end); some of them ambiguous or nullable in several ways
+pub const LAYOUT_DICT: &[(&str, &str)] = &[
+    ("Layout: LWsX? LCmX? LWsX?;", "LWsX: /\\s+/;\nLCmX: /\\/\\/.*/;"),
+    ("Layout: LItemX*;\nLItemX: LWsX | LCmX;", "LWsX: /\\s+/;\nLCmX: /\\/\\/.*/;"),
+    ("Layout: LWsX LWsX | LWsX | EMPTY;", "LWsX: /\\s/;"),
+    ("Layout: EMPTY;", ""),
+    ("Layout: Layout LWsX | EMPTY;", "LWsX: /\\s+/;"),
+    ("Layout: LAX LBX | LAX;\nLAX: LWsX | EMPTY;\nLBX: LWsX | EMPTY;", "LWsX: /\\s+/;"),
 ];
 
 fn repo_grammars() -> &'static Vec<String> {
@@ -162,7 +174,7 @@ pub fn text_of(c: &Case) -> String {
     let mut toks = coarse_tokens(&base);
     for (op, pos, what) in &c.mutations {
         let n = toks.len();
-        match op % 9 {
+        match op % 10 {
             0 => {
                 let i = pick(*pos, n + 1);
                 toks.insert(i, format!(" {} ", DICT[pick(*what, DICT.len())]));
@@ -195,6 +207,17 @@ pub fn text_of(c: &Case) -> String {
             6 if n > 0 => {
                 // truncate the text here
                 toks.truncate(pick(*pos, n));
+            }
+            9 => {
+                // a Layout rule in front of the terminals section + its terminals at the end
+                let (rule, terms) = LAYOUT_DICT[pick(*what, LAYOUT_DICT.len())];
+                match toks.iter().position(|t| t == "terminals") {
+                    Some(i) => {
+                        toks.insert(i, format!("{rule}\n"));
+                        toks.push(format!("\n{terms}\n"));
+                    }
+                    None => toks.push(format!("\n{rule}\nterminals\n{terms}\n")),
+                }
             }
             8 => {
                 // one more terminal definition at the end (unused by the rules)
@@ -339,7 +362,7 @@ impl Prop for C16 {
          (alternatives, EMPTY, named and ?= assignments, inline strings in both quote styles, ? * + \
          with and without [separator], rule / production / terminal meta-data, production kinds, user \
          meta-data), or an AST-shape-rich grammar (G-ast; G-rec with an extra `@vec` alternative outside the documented pattern; keyword-only G-kw), or a .rustemo file of the repository, or a raw string; then 0..4 token / \
-         character level mutations (meta-data blocks from a second dictionary right after a name; an unused terminal definition from a third dictionary appended at the end; insert / replace with a dictionary of 100 entries incl. greedy \
+         character level mutations (meta-data blocks from a second dictionary right after a name; an unused terminal definition from a third dictionary appended at the end; a Layout rule (some ambiguous / nullable in several ways) from a fourth dictionary inserted in front of the terminals section; insert / replace with a dictionary of 100 entries incl. greedy \
          operators, groups, several modifiers, reserved names, Rust keywords, dotted names, huge \
          integers, broken strings and regexes; delete, swap, duplicate, truncate) x {LR,GLR} x table \
          type x prefer_shifts x prefer_shifts_over_empty x builder type x generated table layout x \
@@ -394,10 +417,27 @@ impl Prop for C16 {
         if reserved {
             st.class("text-mentions-reserved-name");
         }
+        // structural class of the recorded finding: a rule / terminal whose snake-case form is a
+        // Rust keyword (`Type` -> `type`) reaches parse_quote! as a field / parameter / fn name
+        const KW: &[&str] = &[
+            "as", "break", "const", "continue", "crate", "else", "enum", "extern", "false", "fn", "for", "if", "impl", "in", "let", "loop",
+            "match", "mod", "move", "mut", "pub", "ref", "return", "self", "static", "struct", "super", "trait", "true", "type", "unsafe",
+            "use", "where", "while", "async", "await", "dyn", "abstract", "become", "box", "do", "final", "macro", "override", "priv",
+            "typeof", "unsized", "virtual", "yield", "try",
+        ];
+        let kw_symbol = coarse_tokens(&text).iter().any(|t| {
+            t.chars().next().map(|c| c.is_uppercase()).unwrap_or(false) && KW.contains(&t.to_lowercase().as_str()) && !KW.contains(&t.as_str())
+        });
         let rsv = "";
         let r = guarded(|| settings.process_grammar(&gpath));
         let class = match r {
             Err(p) => {
+                if kw_symbol && p.file.ends_with("parse_quote.rs") {
+                    return Outcome::fail(
+                        "process_grammar|panic|parse_quote|symbol-whose-snake-case-is-a-keyword".to_string(),
+                        format!("panic at {}:{}: {}\n{}", p.file, p.line, p.message, ctx()),
+                    );
+                }
                 return Outcome::fail(
                     format!("process_grammar|{}{rsv}", panic_sig(&p)),
                     format!("panic at {}:{}: {}\n{}", p.file, p.line, p.message, ctx()),
